@@ -63,8 +63,11 @@ func badValueFor(rt *rapid.T, fd protoreflect.FieldDescriptor, label string) (st
 		return rapid.SampledFrom([]string{"abc", "-1", "4294967296", "1.5"}).Draw(rt, label), true
 	case protoreflect.Uint64Kind, protoreflect.Fixed64Kind:
 		return rapid.SampledFrom([]string{"abc", "-1", "18446744073709551616", "1.5"}).Draw(rt, label), true
-	case protoreflect.FloatKind, protoreflect.DoubleKind:
-		return rapid.SampledFrom([]string{"abc", "1,5", "--1", "1e", "0x"}).Draw(rt, label), true
+	case protoreflect.FloatKind:
+		// (a finite decimal beyond the float32 range does not convert either)
+		return rapid.SampledFrom([]string{"abc", "1,5", "--1", "1e", "0x", "1e39", "-3.5e38"}).Draw(rt, label), true
+	case protoreflect.DoubleKind:
+		return rapid.SampledFrom([]string{"abc", "1,5", "--1", "1e", "0x", "1e309"}).Draw(rt, label), true
 	}
 	return "", false
 }
@@ -75,12 +78,20 @@ func (propC02) Draw(rt *rapid.T, w *WorldDesc, mode string) *Plan {
 	if len(methods) == 0 {
 		return p
 	}
-	nOps := rapid.IntRange(1, 2).Draw(rt, "nOps")
+	nOps := rapid.IntRange(1, 3).Draw(rt, "nOps")
+	sameRoute := rapid.Bool().Draw(rt, "sameRoute")
+	p.Sequential = sameRoute
 	for i := 0; i < nOps; i++ {
 		l := fmt.Sprintf("op%d", i)
 		md := methods[rapid.IntRange(0, len(methods)-1).Draw(rt, l+".rpc")]
+		if i > 0 && sameRoute {
+			_, md = w.Method(p.Ops[0].RPC) // a second request on the same route (state left by the first must not show)
+		}
 		rpc := w.RPC(md.Key)
 		op := &Op{ID: i, RPC: md.Key, Client: "raw", Server: drawServer(rt, l+".server"), App: AppBehaviour{Kind: "respond"}}
+		if i > 0 && sameRoute {
+			op.Server = p.Ops[0].Server
+		}
 		req := drawValidReq(rt, w, md, l+".req")
 		if op.Server == "ts" {
 			scrubNonFinite(req.ProtoReflect(), 0)
